@@ -17,18 +17,12 @@ use serde_json::{Value, json};
 
 use crate::common::*;
 
-fn mk(actor: ActorId, ai: usize, kind: usize, v: u64, ts: klukai_types::broadcast::Timestamp) -> ChangeV1 {
-    // kind: 0 complete (0..1), 1 chunk 0..0, 2 chunk 1..1, 3 empty
-    if kind == 3 {
+fn mk(actor: ActorId, ai: usize, lo: u64, hi: u64, empty: bool, v: u64, last: u64, ts: klukai_types::broadcast::Timestamp) -> ChangeV1 {
+    if empty {
         return empty_cs(actor, v, v, ts);
     }
-    let (lo, hi) = match kind {
-        0 => (0, 1),
-        1 => (0, 0),
-        _ => (1, 1),
-    };
-    let changes = (lo..=hi).map(|s| mk_change("tests", (ai as i64) * 100 + (v as i64) * 10 + s as i64 + 1, "text", SqliteValue::Text(format!("a{ai}v{v}s{s}").into()), 1, v, s, actor, 1)).collect();
-    full_cs(actor, v, changes, lo, hi, 1, ts)
+    let changes = (lo..=hi).map(|s| mk_change("tests", (ai as i64) * 1000 + (v as i64) * 100 + s as i64 + 1, "text", SqliteValue::Text(format!("a{ai}v{v}s{s}").into()), 1, v, s, actor, 1)).collect();
+    full_cs(actor, v, changes, lo, hi, last, ts)
 }
 
 pub async fn run_walk(seed: u64, qlen: usize, chunk: usize, nvers: u64, steps: usize, out_path: &str) -> eyre::Result<()> {
@@ -58,7 +52,9 @@ pub async fn run_walk(seed: u64, qlen: usize, chunk: usize, nvers: u64, steps: u
     let mut rng = SmallRng::seed_from_u64(seed);
     let actors = [ActorId(uuid::Uuid::new_v4()), ActorId(uuid::Uuid::new_v4())];
     let ts = ts_now(&agent);
-    let mut offered: Vec<(usize, usize, u64)> = vec![];
+    let nseqs: u64 = std::env::var("VH_NSEQS").ok().and_then(|s| s.parse().ok()).unwrap_or(2);
+    let last = nseqs - 1;
+    let mut offered: Vec<(usize, u64, u64, bool, u64)> = vec![];
     let mut script: Vec<Value> = vec![];
     // phase 1: overload - the harness holds the write connection
     let mut conn = Some(agent.pool().write_normal().await?);
@@ -70,11 +66,14 @@ pub async fn run_walk(seed: u64, qlen: usize, chunk: usize, nvers: u64, steps: u
             sleep_ms(30).await;
         }
         let ai = rng.random_range(0..2usize);
-        let kind = rng.random_range(0..4usize);
         let v = rng.random_range(1..=nvers);
-        offered.push((ai, kind, v));
-        agent.tx_changes().send((mk(actors[ai], ai, kind, v, ts), ChangeSource::Sync)).await.map_err(|e| eyre::eyre!("{e}"))?;
-        script.push(json!({"offer": [ai + 1, kind, v]}));
+        let empty = rng.random_range(0..8) == 0;
+        let lo = rng.random_range(0..nseqs);
+        let hi = std::cmp::min(last, lo + rng.random_range(0..2));
+        let (lo, hi) = if !empty && rng.random_range(0..12) == 0 { (0, last) } else { (lo, hi) };
+        offered.push((ai, lo, hi, empty, v));
+        agent.tx_changes().send((mk(actors[ai], ai, lo, hi, empty, v, last, ts), ChangeSource::Sync)).await.map_err(|e| eyre::eyre!("{e}"))?;
+        script.push(json!({"offer": [ai + 1, lo, hi, empty, v]}));
         sleep_ms(rng.random_range(0..6)).await;
         if rng.random_range(0..10) == 0 {
             sleep_ms(170).await; // let a tick fire
@@ -84,8 +83,8 @@ pub async fn run_walk(seed: u64, qlen: usize, chunk: usize, nvers: u64, steps: u
     sleep_ms(400).await;
     // phase 2: everything is offered again (as sync does every round), twice
     for round in 0..3 {
-        for (ai, kind, v) in offered.clone() {
-            agent.tx_changes().send((mk(actors[ai], ai, kind, v, ts), ChangeSource::Sync)).await.map_err(|e| eyre::eyre!("{e}"))?;
+        for (ai, lo, hi, empty, v) in offered.clone() {
+            agent.tx_changes().send((mk(actors[ai], ai, lo, hi, empty, v, last, ts), ChangeSource::Sync)).await.map_err(|e| eyre::eyre!("{e}"))?;
             sleep_ms(1).await;
         }
         sleep_ms(400).await;
@@ -93,15 +92,15 @@ pub async fn run_walk(seed: u64, qlen: usize, chunk: usize, nvers: u64, steps: u
     }
     // liveness conclusion observed on the real node: every offered changeset is held now
     let mut not_held = vec![];
-    for (ai, kind, v) in offered.iter() {
+    for (ai, lo, hi, empty, v) in offered.iter() {
         let booked = { bookie.read::<&str, _>("vh", None).await.get(&actors[*ai]).cloned() };
-        let cs = mk(actors[*ai], *ai, *kind, *v, ts);
+        let cs = mk(actors[*ai], *ai, *lo, *hi, *empty, *v, last, ts);
         let held = match booked {
             Some(b) => b.read::<&str, _>("vh", None).await.contains_all(CrsqlDbVersion(*v)..=CrsqlDbVersion(*v), cs.changeset.seqs()),
             None => false,
         };
         if !held {
-            not_held.push(json!([ai + 1, kind, v]));
+            not_held.push(json!([ai + 1, if *empty { 3 } else { 0 }, v, lo, hi]));
         }
     }
     let mut f = std::io::BufWriter::new(std::fs::File::create(out_path)?);
@@ -126,7 +125,8 @@ pub async fn run_walk(seed: u64, qlen: usize, chunk: usize, nvers: u64, steps: u
         }
         let name = ev["ev"].as_str().unwrap_or("");
         let out = match name {
-            "ingest_recv" => json!({"ev": "recv", "c": abs_change(&ev["change"]), "decision": ev["decision"], "dropped": if ev["dropped"].is_null() || ev.get("dropped").is_none() { json!({"k": "none", "a": 0, "v": 0, "lo": 0, "hi": 0}) } else { abs_change(&ev["dropped"]) }, "queue_len": ev["queue_len"].as_u64().unwrap_or(0)}),
+            "ingest_recv" => json!({"ev": "recv", "c": abs_change(&ev["change"]), "decision": ev["decision"], "dropped": if ev["dropped"].is_null() || ev.get("dropped").is_none() { json!({"k": "none", "a": 0, "v": 0, "lo": 0, "hi": 0}) } else { abs_change(&ev["dropped"]) },
+                "still_seen": ev["dropped"]["still_seen"].as_array().cloned().unwrap_or_default(), "key_left": ev["dropped"]["key_left"].as_bool().unwrap_or(false), "queue_len": ev["queue_len"].as_u64().unwrap_or(0)}),
             "ingest_spawn" => json!({"ev": "spawn", "site": ev["site"], "batch": ev["changes"].as_array().unwrap().iter().map(&abs_change).collect::<Vec<_>>(), "inflight": ev["inflight"]}),
             "ingest_done" => json!({"ev": "done", "ok": ev["ok"], "inflight": ev["inflight"]}),
             "ingest_trim" => json!({"ev": "trim", "kept": ev["kept"]}),
